@@ -343,7 +343,7 @@ PROPS = {
         "arithmetic value class, 1e-9 relative otherwise); name_for_bed_item for every column index up to 5 past the "
         "end (must never panic; out of range = error) and interval names; bigwig_average_over_bed over the same "
         "regions as text: one row per input row in input order. Leg 2/3 (tools): bigwigaverageoverbed with -t "
-        "{1,2,3,4,8,16}, --min-max, name modes, region files from 1 to 250 (thorough 2500) rows with very uneven line "
+        "1, 16 and four counts drawn per case from 2..15, --min-max, name modes, region files from 1 to 250 (thorough 2500) rows with very uneven line "
         "lengths: rows within 5.01e-4 of the model and byte-identical across thread counts; bigwigvaluesoverbed: "
         "per-base values of covered bases equal the stored float32.",
         assumptions=[
